@@ -309,8 +309,26 @@ func (vc *VC) readGlobal(st *State, o *types.Var) Val {
 				vc.assumeGlobal(Gt(ITag(c), IntLit(0)))
 			}
 		}
-		if arr, ok := t.Underlying().(*types.Array); ok && isInteger(arr.Elem()) {
-			_ = arr
+		// a pointer variable initialised in its declaration by regexp.MustCompile / &T{...} / new(T) and
+		// never assigned afterwards (global-write sweep) is not nil
+		if _, isPtr := t.Underlying().(*types.Pointer); isPtr && c.Sort == SInt {
+			if init, ok := vc.P.globalInit[o]; ok && !vc.P.globalsAssigned[o] {
+				nonNil := false
+				switch e := init.(type) {
+				case *ast.UnaryExpr:
+					nonNil = e.Op == token.AND
+				case *ast.CallExpr:
+					if sel, ok := e.Fun.(*ast.SelectorExpr); ok && (sel.Sel.Name == "MustCompile") {
+						nonNil = true
+					}
+					if id, ok := e.Fun.(*ast.Ident); ok && id.Name == "new" {
+						nonNil = true
+					}
+				}
+				if nonNil {
+					vc.assumeGlobal(Not(Eq(c, IntLit(0))))
+				}
+			}
 		}
 	}
 	return c
